@@ -362,8 +362,8 @@ Definition p_remember (exitset : list nat) (s : pstate) : pstate :=
 Definition p_anc_close (target : list nat) : list nat :=
   fold_left (fun es i => if mem i es then set_union es (fs_ancestors (st c i)) else es) (seq 0 pn) target.
 
-Definition first_target_above (i : nat) (targets : list nat) : option nat :=
-  match filter (fun k => mem k targets) (seq (S i) (pn - S i)) with k :: _ => Some k | [] => None end.
+Definition targets_above (i : nat) (targets : list nat) : list nat :=
+  filter (fun k => mem k targets) (seq (S i) (pn - S i)).
 
 Definition p_descend_one (cfg exitset hist : list nat) (acc : list nat * list nat * pstate) (i : nat)
   : list nat * list nat * pstate :=
@@ -382,10 +382,7 @@ Definition p_descend_one (cfg exitset hist : list nat) (acc : list nat * list na
         let t := tr c j in
         let es1 := set_union es (ft_targets t) in
         let es2 := if is_deep (fs_type si) && negb (intersects (ft_targets t) (fs_children si)) then
-                     match first_target_above i (ft_targets t) with
-                     | Some k => set_union es1 (fs_ancestors (st c k))
-                     | None => es1
-                     end
+                     fold_left (fun a k => set_union a (fs_ancestors (st c k))) (targets_above i (ft_targets t)) es1
                    else es1 in
         (es2, insert_sorted j ts, s2)
       | None => (es, ts, s2)
